@@ -7,6 +7,21 @@ namespace XV
 
 abbrev Str := List Nat
 
+/-- equality of two texts as a structurally recursive Bool function on `Nat.beq`: the derived
+    `==` on `List Nat` goes through `DecidableEq` and is two orders of magnitude slower in the kernel -/
+def Str.eqb : List Nat → List Nat → Bool
+  | [], [] => true
+  | a :: as, b :: bs => Nat.beq a b && Str.eqb as bs
+  | _, _ => false
+
+theorem Str.eqb_iff (a b : List Nat) : Str.eqb a b = true ↔ a = b := by
+  induction a generalizing b with
+  | nil => cases b <;> simp [Str.eqb]
+  | cons x xs ih =>
+    cases b with
+    | nil => simp [Str.eqb]
+    | cons y ys => simp [Str.eqb, ih, Nat.beq_eq_true_eq]
+
 /-- conversion used by the driver and by `example`s that pin the literal constants below -/
 def str (x : String) : Str := x.toList.map Char.toNat
 def Str.toString (s : Str) : String := String.ofList (s.map Char.ofNat)
